@@ -46,7 +46,7 @@ var done bool
 
 func main() {
 	kit.Main(&kit.Check{
-		ID: "C36", Level: "model_checking",
+		ID: "C36", Level: "model_checking", SlowIsNotHang: true,
 		Rule:          "part configs: (source, builder, cores 1..16) run natively, dump vs the 1-core dump. part sched: (source, builder) with 2 cores under the controlled scheduler, every interleaving up to the bound, dump vs the 1-core dump. part partition: the builders fed by a source that delivers a fixed order-preserving partition of the feature list from 2 goroutines (the nondeterminism of MemoryFeatureSource reduced to which goroutine gets which feature), dump vs the 1-core dump. part validator: the compact builder's shared Validator driven directly by 2-3 goroutines delivering a partition of a feature list, every interleaving, the features handed back for emission vs the schedule-free rule and vs one goroutine alone (delivered area objects are overwritten after each call, as reusing sources do); non-trivial = execution with at least one scheduling choice; distinct = happens-before keys.",
 		Assumptions:   []string{"code between two synchronisation operations runs atomically; sync/atomic counters are not scheduling points", "map ranges in rewritten packages use one fixed order", "compact scratch buffers reduced to 1 MB by a build-time transform"},
 		QuickDeadline: 250e9, ThoroughDeadline: 1500e9, CaseTimeout: 500e9, Chunk: 1,
